@@ -42,7 +42,7 @@ theorem travFacts {a : DSymData} (ha : ValidSym a) (hc : Conn a) {seed : Nat}
     TravFacts a seed (a.view.traversal a.view.indices [seed]) := by
   have hP : a.view.PInvol := by rw [a.view_eq]; exact ha.set.pinvol
   obtain ⟨c1, c2, c3, _, _, _⟩ := DSymVerif.C02.traversal_complete a.view hP a.view.indices [seed]
-  simp only at c1 c2 c3
+
   have hsound := DSymVerif.C02.traversal_sound a.view a.view.indices [seed]
   generalize hL : a.view.traversal a.view.indices [seed] = L at c1 c2 c3 hsound
   have hseedR : 1 ≤ seed ∧ seed ≤ a.view.size := ⟨h1, h2⟩
@@ -129,6 +129,242 @@ theorem travFacts {a : DSymData} (ha : ValidSym a) (hc : Conn a) {seed : Nat}
     exact (htgt y).2 ⟨hy1, hy2⟩
   · intro y hy1 hy2 k hk
     exact c2 y ((htgt y).2 ⟨hy1, hy2⟩) k ((mem_indices a.view k).2 hk)
+
+/-! ### the fold over the traversal of a good seed -/
+
+theorem itemsOK_of {n dim : Nat} {v : Nat → Nat → Option Nat} : ∀ (L : List TravItem) (T : List Nat),
+    (∀ t ∈ L, t.2.1 ≤ n ∧ t.2.2 ≤ n ∧ ∀ i, i < dim → ∃ x, v i t.2.2 = some x) →
+    (∀ pre t post, L = pre ++ t :: post →
+      t.2.1 ∈ T ∨ (∃ u ∈ pre, u.2.2 = t.2.1) ∨ t.2.1 = t.2.2) →
+    ItemsOK n dim v L T
+  | [], _, _, _ => trivial
+  | it :: rest, T, h1, h2 => by
+    have hm := h1 it (List.mem_cons_self ..)
+    refine ⟨hm.1, hm.2.1, ?_, hm.2.2,
+      itemsOK_of rest _ (fun t ht => h1 t (List.mem_cons_of_mem _ ht)) ?_⟩
+    · rcases h2 [] it rest rfl with h | ⟨u, hu, _⟩ | h
+      · exact mem_addT.2 (Or.inl h)
+      · cases hu
+      · exact mem_addT.2 (Or.inr h)
+    · intro pre t post hsplit
+      rcases h2 (it :: pre) t post (by rw [hsplit]; rfl) with h | ⟨u, hu, hue⟩ | h
+      · exact Or.inl (mem_addT.2 (Or.inl h))
+      · rcases List.mem_cons.1 hu with rfl | hu
+        · exact Or.inl (mem_addT.2 (Or.inr hue.symm))
+        · exact Or.inr (Or.inl ⟨u, hu, hue⟩)
+      · exact Or.inr (Or.inr h)
+
+theorem vAdj_some {a : DSymData} (ha : ValidSym a) {i y : Nat} (hi : i < a.dim) (h1 : 1 ≤ y) (h2 : y ≤ a.size) :
+    ∃ x, a.vAdj i y = some x := by
+  unfold DSymData.vAdj
+  rw [ha.vPartial_adj hi h1 h2]
+  exact ⟨_, rfl⟩
+
+/-- the exhausted `TraversalCode` of a seed with facts `F`, explicitly -/
+theorem seed_code {a : DSymData} (ha : ValidSym a) {seed : Nat} {L : List TravItem}
+    (hL : a.view.traversal a.view.indices [seed] = L) (F : TravFacts a seed L) :
+    ∃ c, traversalCode a seed = .ok c ∧
+      c.code = encode (numOf (targetsOf L [])) a.vAdj a.dim L [] ∧
+      c.map.size = a.size + 1 ∧
+      ∀ y, y ≤ a.size → c.map.getD y 0 = numOf (targetsOf L []) y := by
+  have hok : ItemsOK a.size a.dim a.vAdj L [] := by
+    apply itemsOK_of
+    · intro t ht
+      have r := F.range t ht
+      exact ⟨r.1.2, r.2.2, fun i hi => vAdj_some ha hi r.2.1 r.2.2⟩
+    · intro pre t post hsplit
+      exact Or.inr (F.srcok pre t post hsplit)
+  obtain ⟨fin, hfin, inv, hbuf⟩ := codeFold_spec (v := a.vAdj) (dim := a.dim) L [] (CodeState.init a.size)
+    (SI.init a.size) hok
+  refine ⟨⟨fin.buf.toList, fin.emap⟩, ?_, ?_, inv.size, inv.emap⟩
+  · unfold traversalCode traversalCodeOf
+    rw [hL]
+    show (match codeFold a.dim a.vAdj L (CodeState.init a.size) with
+      | .ok st => Outcome.ok ({ code := st.buf.toList, map := st.emap } : Code)
+      | .err => .err
+      | .panic => .panic) = _
+    rw [hfin]
+  · show fin.buf.toList = _
+    rw [hbuf]
+    simp [CodeState.init]
+
+/-- the numbered chambers of a good seed are exactly the chambers -/
+theorem targets_length {a : DSymData} {seed : Nat} {L : List TravItem} (F : TravFacts a seed L) :
+    (targetsOf L []).length = a.size ∧ ∀ y, y ∈ targetsOf L [] ↔ (1 ≤ y ∧ y ≤ a.size) := by
+  have hmem : ∀ y, y ∈ targetsOf L [] ↔ (1 ≤ y ∧ y ≤ a.size) := by
+    intro y
+    rw [mem_targetsOf]
+    constructor
+    · rintro (h | ⟨t, ht, rfl⟩)
+      · cases h
+      · exact (F.range t ht).2
+    · rintro ⟨h1, h2⟩
+      exact Or.inr (F.all y h1 h2)
+  refine ⟨?_, hmem⟩
+  have hnd : (targetsOf L []).Nodup := targetsOf_nodup L [] List.nodup_nil
+  have hfs : (targetsOf L []).toFinset = Finset.Icc 1 a.size := by
+    ext y
+    rw [List.mem_toFinset, Finset.mem_Icc, hmem]
+  have := List.toFinset_card_of_nodup hnd
+  rw [hfs, Nat.card_Icc] at this
+  omega
+
+/-- the element map of a good seed is a bijection of the chambers -/
+theorem seed_perm {a : DSymData} {seed : Nat} {L : List TravItem} (F : TravFacts a seed L)
+    {m : Array Nat} (hsz : m.size = a.size + 1)
+    (hm : ∀ y, y ≤ a.size → m.getD y 0 = numOf (targetsOf L []) y) : PermOn a.size m := by
+  obtain ⟨hlen, hmem⟩ := targets_length F
+  refine ⟨hsz, ?_, ?_⟩
+  · intro d h1 h2
+    rw [hm d h2, numOf_of_mem ((hmem d).2 ⟨h1, h2⟩)]
+    have := List.idxOf_lt_length_of_mem ((hmem d).2 ⟨h1, h2⟩)
+    omega
+  · intro d e hd1 hd2 he1 he2 hde
+    rw [hm d hd2, hm e he2] at hde
+    exact numOf_inj ((hmem d).2 ⟨hd1, hd2⟩) ((hmem e).2 ⟨he1, he2⟩) hde
+
+/-! ### the length of the code -/
+
+def hdrLen (it : TravItem) : Nat :=
+  match it.1 with
+  | some _ => 3
+  | none => 2
+
+theorem hdr_length (m : Nat → Nat) (it : TravItem) : (hdr m it).length = hdrLen it := by
+  obtain ⟨mi, x, y⟩ := it
+  cases mi <;> rfl
+
+theorem encode_length {m : Nat → Nat} {v : Nat → Nat → Option Nat} {dim : Nat} :
+    ∀ (L : List TravItem) (T : List Nat),
+      (encode m v dim L T).length + dim * T.length =
+        (L.map hdrLen).sum + dim * (targetsOf L T).length
+  | [], T => by simp [encode, targetsOf]
+  | it :: rest, T => by
+    have ih := encode_length (m := m) (v := v) (dim := dim) rest (addT T it.2.2)
+    rw [encode, targetsOf, List.map_cons, List.sum_cons, List.length_append, List.length_append,
+      hdr_length]
+    by_cases hmem : it.2.2 ∈ T
+    · have hadd : addT T it.2.2 = T := by unfold addT; rw [if_pos hmem]
+      rw [hadd] at ih ⊢
+      rw [if_pos hmem]
+      simp only [List.length_nil]
+      omega
+    · have hadd : (addT T it.2.2).length = T.length + 1 := by
+        unfold addT; rw [if_neg hmem]; simp
+      rw [if_neg hmem]
+      have hv : (vrow v dim it.2.2).length = dim := by simp [vrow]
+      rw [hv]
+      rw [hadd, Nat.mul_add, Nat.mul_one] at ih
+      omega
+
+theorem hdrLen_sum_edges : ∀ (E : List TravItem), (∀ e ∈ E, ∃ k, e.1 = some k) →
+    (E.map hdrLen).sum = 3 * E.length
+  | [], _ => rfl
+  | e :: E, h => by
+    obtain ⟨k, hk⟩ := h e (List.mem_cons_self ..)
+    have := hdrLen_sum_edges E (fun x hx => h x (List.mem_cons_of_mem _ hx))
+    rw [List.map_cons, List.sum_cons, this, List.length_cons]
+    have : hdrLen e = 3 := by unfold hdrLen; rw [hk]
+    omega
+
+/-- length of the code of a good seed -/
+theorem seed_code_length {a : DSymData} {seed : Nat} {L : List TravItem} (F : TravFacts a seed L)
+    (m : Nat → Nat) :
+    (encode m a.vAdj a.dim L []).length + 1 = 3 * L.length + a.dim * a.size := by
+  obtain ⟨E, hE, hedges⟩ := F.shape
+  have h := encode_length (m := m) (v := a.vAdj) (dim := a.dim) L []
+  rw [(targets_length F).1] at h
+  have hs : (L.map hdrLen).sum = 2 + 3 * E.length := by
+    rw [hE, List.map_cons, List.sum_cons, hdrLen_sum_edges E hedges]
+    rfl
+  have hl : L.length = E.length + 1 := by rw [hE]; rfl
+  simp only [List.length_nil, Nat.mul_zero, Nat.add_zero] at h
+  omega
+
+/-! ### the number of items does not depend on the seed -/
+
+def ekey (it : TravItem) : Nat × Nat := (it.1.getD 0, min it.2.1 it.2.2)
+
+theorem edges_of {a : DSymData} {seed : Nat} {L : List TravItem} (F : TravFacts a seed L) :
+    ∃ E, L = (none, seed, seed) :: E ∧ (E.map ekey).Nodup ∧
+      (∀ e ∈ E, ∃ k, e.1 = some k ∧ k ≤ a.dim ∧ (1 ≤ e.2.1 ∧ e.2.1 ≤ a.size) ∧ e.2.2 = a.dset.opU k e.2.1) := by
+  obtain ⟨E, hE, hedges⟩ := F.shape
+  have hmemE : ∀ e ∈ E, e ∈ L := fun e he => by rw [hE]; exact List.mem_cons_of_mem _ he
+  refine ⟨E, hE, ?_, ?_⟩
+  · have hp : E.Pairwise (fun t t' => ∀ i, t.1 = some i → t'.1 = some i →
+        t.2.1 ≠ t'.2.1 ∧ t.2.1 ≠ t'.2.2 ∧ t.2.2 ≠ t'.2.1 ∧ t.2.2 ≠ t'.2.2) := by
+      have := F.pair
+      rw [hE] at this
+      exact (List.pairwise_cons.1 this).2
+    rw [List.Nodup, List.pairwise_map]
+    refine List.Pairwise.imp_of_mem ?_ hp
+    intro t t' ht ht' hR hk
+    obtain ⟨k, hk1⟩ := hedges t ht
+    obtain ⟨k', hk2⟩ := hedges t' ht'
+    unfold ekey at hk
+    rw [hk1, hk2] at hk
+    simp only [Option.getD_some, Prod.mk.injEq] at hk
+    obtain ⟨hkk, hmin⟩ := hk
+    subst hkk
+    obtain ⟨r1, r2, r3, r4⟩ := hR k hk1 hk2
+    omega
+  · intro e he
+    obtain ⟨k, hk⟩ := hedges e he
+    obtain ⟨hk1, hk2⟩ := F.edge e (hmemE e he) k hk
+    exact ⟨k, hk, hk1, (F.range e (hmemE e he)).1, hk2⟩
+
+/-- the traversals from two seeds of one connected symbol report equally many items -/
+theorem items_length_le {a : DSymData} (ha : ValidSym a) {seed seed' : Nat} {L L' : List TravItem}
+    (F : TravFacts a seed L) (F' : TravFacts a seed' L') : L.length ≤ L'.length := by
+  obtain ⟨E, hE, hnd, hedge⟩ := edges_of F
+  obtain ⟨E', hE', _, hedge'⟩ := edges_of F'
+  have hsub : E.map ekey ⊆ E'.map ekey := by
+    intro key hkey
+    obtain ⟨e, he, rfl⟩ := List.mem_map.1 hkey
+    obtain ⟨k, hk, hkd, hr, htgt⟩ := hedge e he
+    -- the edge of (e.src, k) in the other traversal
+    obtain ⟨w, hw, hwk, hwy⟩ := F'.cover e.2.1 hr.1 hr.2 k hkd
+    have hwE : w ∈ E' := by
+      rw [hE'] at hw
+      rcases List.mem_cons.1 hw with rfl | h
+      · cases hwk
+      · exact h
+    obtain ⟨k', hk', _, hr', htgt'⟩ := hedge' w hwE
+    rw [hwk] at hk'
+    cases hk'
+    refine List.mem_map.2 ⟨w, hwE, ?_⟩
+    unfold ekey
+    rw [hwk, hk]
+    simp only [Option.getD_some, Prod.mk.injEq, true_and]
+    rcases hwy with h | h
+    · rw [htgt', h, htgt]
+    · -- w.tgt = e.src, so w.src = op k (e.src) = e.tgt
+      have : a.dset.opU k w.2.2 = w.2.1 := by
+        rw [htgt']; exact ha.set.invol k _ hkd hr'.1 hr'.2
+      rw [h] at this
+      rw [htgt, this, h]
+      exact Nat.min_comm _ _
+  have hle : (E.map ekey).length ≤ (E'.map ekey).length :=
+    (List.subperm_of_subset hnd hsub).length_le
+  rw [List.length_map, List.length_map] at hle
+  rw [hE, hE']
+  simp only [List.length_cons]
+  omega
+
+/-- **every seed of a connected valid symbol is good** -/
+theorem allSeedsGood {a : DSymData} (ha : ValidSym a) (hsize : 1 ≤ a.size) (hc : Conn a) :
+    AllSeedsGood a := by
+  have F1 := travFacts ha hc (Nat.le_refl 1) hsize
+  refine ⟨3 * (a.view.traversal a.view.indices [1]).length + a.dim * a.size - 1, ?_⟩
+  intro d h1 h2
+  have F := travFacts ha hc h1 h2
+  obtain ⟨c, hc1, hc2, hc3, hc4⟩ := seed_code ha rfl F
+  refine ⟨c, hc1, ?_, seed_perm F hc3 hc4⟩
+  have hlen := seed_code_length F (numOf (targetsOf (a.view.traversal a.view.indices [d]) []))
+  have e1 := items_length_le ha F F1
+  have e2 := items_length_le ha F1 F
+  rw [hc2]
+  omega
 
 end CanonP
 end DSymVerif.DS
